@@ -281,6 +281,10 @@ def dup_call(w, rng, tpl, stored, uniform):
     starts with the existing index, or it repeats its own last (new) index"""
     top = max(stored)
     r = rng.random()
+    if r < 0.25 and w.writer is not None:
+        # the same index described with other field names: still a duplicate
+        w.write_other_fields(rng.choice(sorted(stored)), make_data(rng, tpl, "single", 1, True))
+        return set()
     if r < 0.4:
         idxs = [rng.choice(sorted(stored))]
     elif r < 0.7:
